@@ -4,27 +4,39 @@ namespace Xp.C12
 open Lean (Json)
 open Xp.IOx
 
-/-- scenario-level oracle table: what the real code computed for (comp, content index) -/
+/-- scenario-level oracle table: the sha256 digest (`full`) of a hash input (`input`), as the
+real `Composition.Hash` computed it. Everything else — the input itself, the 63-character
+label, the revision name — is computed by the model. -/
 structure TabRow where
-  comp : String
-  ci : Nat
-  hash : String
-  name : String
+  input : String
+  full : String
 
+/-- the entries of a JSON object, in key order (the order `yaml.Marshal` writes a map in) -/
 def labelsOf (j : Json) (k : String) : Labels :=
   (kvs j k).filterMap fun (a, v) => v.getStr?.toOption.map fun s => (a, s)
 
-def contentOf (j : Json) : Content := ⟨labelsOf j "labels", nat j "annos", nat j "spec"⟩
+def optS (s : String) : Option String := if s = "" then none else some s
 
-def mkNaming (contents : List Content) (tab : List TabRow) : Naming where
-  hash := fun c =>
-    match contents.idxOf? c with
-    | some i => ((tab.find? (·.ci = i)).map (·.hash)).getD s!"?hash{i}"
-    | none => "?hash"
-  name := fun comp c =>
-    match contents.idxOf? c with
-    | some i => ((tab.find? (fun t => t.ci = i ∧ t.comp = comp)).map (·.name)).getD s!"?{comp}-{i}"
-    | none => s!"?{comp}"
+def specOf (j : Json) : Spec :=
+  { apiVersion := str j "apiVersion", kind := str j "kind", mode := optS (str j "mode"),
+    patchSets := strs j "patchSets", resources := strs j "resources",
+    pipeline := (arr j "pipeline").map fun p => (str p "step", str p "fn"),
+    wcs := optS (str j "wcs"), store := optS (str j "store") }
+
+def noSpec : Spec := ⟨"", "", none, [], [], [], none, none⟩
+
+def contentOf (specs : List Spec) (j : Json) : Content :=
+  ⟨labelsOf j "labels", labelsOf j "anno", (specs[nat j "spec"]?).getD noSpec⟩
+
+/-- the shipped YAML of a spec (third-party rendering of the struct) -/
+def specYamlOf (specs : List Spec) (yamls : List String) (s : Spec) : String :=
+  match specs.idxOf? s with
+  | some i => yamls[i]?.getD "?yaml"
+  | none => "?yaml"
+
+/-- sha256 as a table keyed by the input the MODEL renders -/
+def mkDigest (render : List Tok → String) (tab : List TabRow) : List Tok → String := fun t =>
+  ((tab.find? (·.input = render t)).map (·.full)).getD ("?digest:" ++ render t)
 
 /-- the fault of the harness by name: the four outcomes of the shared fault model, the
 error classes the code tells apart (`notFound`, `alreadyExists`), and `error` for every
@@ -48,10 +60,16 @@ def ctrlStr : Option Nat → String
   | none => "none"
   | some n => s!"uid-{n}"
 
+def revSpecJson (r : RevSpec) : Json :=
+  Json.mkObj [("apiVersion", .str r.apiVersion), ("kind", .str r.kind), ("mode", .str (r.mode.getD "")),
+    ("patchSets", Json.arr (r.patchSets.map Json.str).toArray), ("resources", Json.arr (r.resources.map Json.str).toArray),
+    ("pipeline", Json.arr (r.pipeline.map fun (a, b) => Json.mkObj [("step", .str a), ("fn", .str b)]).toArray),
+    ("wcs", .str (r.wcs.getD "")), ("store", .str (r.store.getD "")), ("yaml", .str "")]
+
 def revJson (r : Rev) : Json :=
   Json.mkObj [("name", .str r.name), ("comp", .str r.comp), ("hash", .str r.hash), ("num", .num (Lean.JsonNumber.fromNat r.num)),
     ("ctrl", .str (ctrlStr r.ctrl)), ("labels", Json.mkObj (r.labels.map fun (k, v) => (k, Json.str v))),
-    ("spec", .num (Lean.JsonNumber.fromNat r.spec))]
+    ("spec", revSpecJson r.spec)]
 
 def stateJson (res : String) (xrNames : List String) (enq : List String) (s : Store) : Json :=
   Json.mkObj [("res", .str res), ("revs", Json.arr (s.revs.map revJson).toArray),
@@ -84,7 +102,12 @@ def currentHighestB (H : Naming) (stale : List String) (s : Store) (c : Comp) (c
   if c.deleting then true else
   match s.revs.find? (fun r => r.comp = c.name ∧ r.hash = H.hash c.content) with
   | none => false
-  | some cur => (!ctrl || cur.ctrl = some c.uid) && cur.spec = c.content.spec && cur.labels == c.content.labels &&
+  | some cur => (!ctrl || cur.ctrl = some c.uid) && cur.spec = toRevisionSpec c.content.spec &&
+      -- the labels copied at creation are the content's, or (label<->annotation move, same hash
+      -- input: `shift_labels_prefix`) a non-empty prefix of its labels followed by its annotations
+      (cur.labels == c.content.labels ||
+        (cur.labels != [] && c.content.labels != [] && c.content.annos != [] &&
+          cur.labels.isPrefixOf (c.content.labels ++ c.content.annos))) &&
       s.revs.all fun r => r.name = cur.name || r.comp ≠ c.name || r.num < cur.num ||
         stale.contains cur.name || stale.contains r.name
 
@@ -93,7 +116,7 @@ def pairwiseAdj (f : Store → Store → Bool) : List Store → Bool
   | _ => true
 
 /-- one action of the environment (top-level event, or between two API calls) -/
-def applyOp (contents : List Content) (s : Store) (e : Json) : Store :=
+def applyOp (contents : List Content) (spec0 : Spec) (s : Store) (e : Json) : Store :=
   let comp := str e "comp"
   let cur := s.comps.find? (·.name = comp)
   match str e "op" with
@@ -112,6 +135,17 @@ def applyOp (contents : List Content) (s : Store) (e : Json) : Store :=
     match cur with
     | some c => envStep s (.putComp { c with deleting := true })
     | none => s
+  | "legacy" =>
+    -- a revision written by a version that did not know the composition-hash label yet: named
+    -- <composition>-legacy, no hash label, the next free number, controlled by the Composition.
+    -- (Not an `Ev`: such a revision is the image of no content, `WF` does not describe it.)
+    match cur with
+    | some c =>
+      let nm := comp ++ "-legacy"
+      if s.revs.any (·.name = nm) then s else
+      let mx := ((s.revs.filter (·.comp = comp)).map (·.num)).foldl max 0
+      { s with revs := insertRev ⟨nm, comp, "", mx + 1, some c.uid, [], toRevisionSpec spec0, 1⟩ s.revs }
+    | none => s
   | "strip" => envStep s (.setCtrl (strs e "names") none)
   | "foreign" => envStep s (.setCtrl (strs e "names") (some 999))
   | "setxr" =>
@@ -127,8 +161,8 @@ def applyOp (contents : List Content) (s : Store) (e : Json) : Store :=
   | _ => s
 
 /-- what other clients do right before API call `k` of the event -/
-def envOf (contents : List Content) (e : Json) : Env Store := fun k s =>
-  (arr e "env").foldl (fun s ea => if nat ea "before" = k then (arr ea "acts").foldl (applyOp contents) s else s) s
+def envOf (contents : List Content) (spec0 : Spec) (e : Json) : Env Store := fun k s =>
+  (arr e "env").foldl (fun s ea => if nat ea "before" = k then (arr ea "acts").foldl (applyOp contents spec0) s else s) s
 
 def hasEnv (e : Json) : Bool := (arr e "env").any fun ea => !(arr ea "acts").isEmpty
 
@@ -154,9 +188,13 @@ structure Acc where
   stale : List String
 
 def handler : Handler := fun scn =>
-  let contents := (arr scn "contents").map contentOf
-  let tab := (arr scn "tab").map fun t => (⟨str t "comp", nat t "ci", str t "hash", str t "name"⟩ : TabRow)
-  let H := mkNaming contents tab
+  let specs := (arr scn "specs").map specOf
+  let yamls := (arr scn "specs").map (str · "yaml")
+  let contents := (arr scn "contents").map (contentOf specs)
+  let tab := (arr scn "tab").map fun t => (⟨str t "input", str t "full"⟩ : TabRow)
+  let spec0 := specs[0]?.getD noSpec
+  let render := renderToks (specYamlOf specs yamls)
+  let H := Naming.ofDigest (mkDigest render tab)
   -- the mirror of the ordering found in the tree under test (see harness c12Variant)
   let recProg := if str scn "variant" == "unfixed" then reconcileD4 H else reconcile H
   let xrNames := (arr scn "xrs").map (str · "name")
@@ -169,7 +207,7 @@ def handler : Handler := fun scn =>
     let snaps := acc.snaps.push s
     let i := acc.snaps.size
     let comp := str e "comp"
-    let env := envOf contents e
+    let env := envOf contents spec0 e
     let plan := fplanOf e
     let v := viewOf e snaps i
     -- the cache catches up right before API call `until` (0 = stays behind)
@@ -181,7 +219,12 @@ def handler : Handler := fun scn =>
         let (s1, r) := runX sm env plan 0 (recProg comp) s
         let res := match r with
           | none => "crashed" | some .done => "ok" | some .created => "created" | some .requeue => "requeue" | some .err => "err"
-        let created := s1.revs.filter fun r => !(s.revs.any (·.name = r.name))
+        -- the revisions this reconcile created (its own applied `Create`s; other clients may
+        -- have created revisions meanwhile)
+        let created := (ownX sm env plan 0 (recProg comp) s).filterMap fun x =>
+          match x.2 with
+          | .createRev r => if x.1.revs.any (·.name = r.name) then none else s1.revs.find? (·.name = r.name)
+          | _ => none
         let enq := (created.flatMap (enqueueFor s1.xrs)).eraseDups
         let trace := reachX sm env plan 0 (recProg comp) s
         -- did the cache serve a list that differs from the live revisions of the Composition?
@@ -209,13 +252,14 @@ def handler : Handler := fun scn =>
         let own := ownX sm env plan 0 (fetch (str e "xr")) s
         let noRevWrite := own.all fun x => match x.2 with | .updateRev _ _ | .createRev _ => false | _ => true
         (s1, res, [], noRevWrite, "C12:model-fetch-wrote-revisions", acc.stale)
-      | _ => (applyOp contents s e, "", [], true, "", acc.stale)
+      | _ => (applyOp contents spec0 s e, "", [], true, "", acc.stale)
     let mono := leB s s' && wfB stale' s'
     let ok' := good && mono
     { s := s', outs := acc.outs ++ [stateJson res xrNames enq s'], ok := acc.ok && ok',
       why := if !acc.ok then acc.why else if !good then w else if !mono then "C12:model-not-monotone" else "",
       snaps := snaps, stale := stale' }
   let fin := (arr scn "events").foldl step { s := s0, outs := [], ok := true, why := "", snaps := #[], stale := [] }
-  .ok (Json.mkObj [("steps", Json.arr fin.outs.toArray)], fin.ok, fin.why)
+  .ok (Json.mkObj [("inputs", Json.arr (contents.map fun c => Json.str (render (hashToks c))).toArray),
+    ("steps", Json.arr fin.outs.toArray)], fin.ok, fin.why)
 
 end Xp.C12
